@@ -95,8 +95,8 @@ def run(ctx):
         fseed = rng.randrange(1 << 30)
         name, f = objective_zoo(_r.Random(fseed), n, lo, up)
         r_, eps, _, m = scen.rand_params(rng, n)
-        limit = rng.choice([3, 6, 12])
-        eps = rng.choice([0.3, 0.12, 0.02])
+        limit = [3, 6, 12, 4, 6][ci % 5]        # (3, 4: the longer patterns pass the budget before Solve is called)
+        eps = [0.02, 0.12, 0.3, 0.02, 0.12][ci % 5]        # (0.02: the budget binds, not the accuracy)
         mk = lambda tag, listener="none": SolverRun(FnProblem(n, lo, up, f, name), r=r_, eps=eps, limit=limit, m=m, tag=tag,  # noqa: E731
                                                     full_snap=False, listener=listener)
         pruns = [do_pattern(mk, pat, "%s/pattern" % name) for pat in pats]
@@ -144,6 +144,20 @@ def run(ctx):
                 w.solve()
                 pairs.add("SameSequence", "equal", seq_of(w), sa, {"objective": name, "n": n, "kind": "DoGlobalIteration(T-%d), GetResults, Solve" % j})
                 runs.append(w)
+        if i < (4 if qk else 40):
+            # Solve entered with the criterion long since true: the batches went j trials beyond the stop moment; Solve in between
+            for j in (1, 3):
+                w = mk(name + "/beyond-stop")
+                w.dgi(len(sa) + j)
+                w.solve()
+                pairs.add("SamePrefix", "prefix", sa, seq_of(w), {"objective": name, "n": n, "kind": "DoGlobalIteration(T+%d), Solve" % j})
+                runs.append(w)
+            w = mk(name + "/solve-step-solve")
+            w.solve()
+            w.dgi(1)
+            w.solve()
+            pairs.add("SamePrefix", "prefix", sa, seq_of(w), {"objective": name, "n": n, "kind": "Solve, DoGlobalIteration(1), Solve"})
+            runs.append(w)
         if i < (3 if qk else 16):
             spec = {"seed": 1, "n": n, "lo": lo, "up": up, "fseed": fseed, "r": r_, "eps": eps, "limit": limit, "m": m}
             env = dict(os.environ, PYTHONHASHSEED=str(1 + i), PYTHONWARNINGS="ignore", PYTHONDONTWRITEBYTECODE="1")
